@@ -5,6 +5,7 @@ import (
 	"go/ast"
 	"go/token"
 	"go/types"
+	"strings"
 )
 
 func init() { checks["C04"] = checkC04 }
@@ -25,6 +26,7 @@ func checkC04(r *Run) {
 	r.Rule("C04.R1.guard", "in cesium.DB.DeleteTimeRange the index channel's Delete is reachable only after the dependants loop, whose HasDataFor(tr) result must be (false, nil) to continue; the loop skips a channel only if it is the index itself or not indexed by it; DB.mu is held exclusively at the test and at the delete", 5)
 	r.Rule("C04.R2.atomic", "domain.DB.Delete holds deleteLock (W) throughout, holds idx.mu (W) at every table store, at prepare and at the persist call, and after re-locking compares the remembered start and end pointers with the table before using their positions", 6)
 	r.Rule("C04.R3.gc", "GarbageCollect runs gcWriters and gcReaders before any garbageCollectFile; garbageCollectFile performs no file mutation when prepareForGC refused or a reader handle is open, holds fc.readers across the swap, and calls rejuvenate after it on every success path", 6)
+	r.Rule("C04.R5.roles", "in domain.validateDelete the start offset is compared with / clamped to only the start domain's length and the end offset only the end domain's (roles resolved from parameter positions and pointers[position].size definitions)", 4)
 	r.Rule("C04.R4.cache", "unary.DB.delete and unary.DB.GarbageCollect invalidate the offset cache on every success path", 2)
 
 	la := NewLockAnalysis(p, cesiumScope)
@@ -36,6 +38,233 @@ func checkC04(r *Run) {
 	checkDomainDelete(r, p, la)
 	checkGCExclusion(r, p, la)
 	checkCacheInvalidate(r, p)
+	checkDeleteRoles(r, p)
+	checkGCRewriteLoop(r, p)
+}
+
+// checkGCRewriteLoop: the loop of garbageCollectFile that rewrites pointer offsets visits
+// every pointer of the index. Between the copy phase and this loop a concurrent Delete may
+// split a pointer into several (the comment in the code says so), so the number of
+// pointers to rewrite is not known in advance: any early exit strands later pointers at
+// their old offsets in the compacted file.
+func checkGCRewriteLoop(r *Run, p *Prog) {
+	gcf := p.Func(domainPkg, "DB", "garbageCollectFile")
+	if gcf == nil {
+		r.Undecide("C04.R3: garbageCollectFile not found")
+		return
+	}
+	n := 0
+	var visit func(fn *FuncNode)
+	visit = func(fn *FuncNode) {
+		ast.Inspect(fn.Body, func(x ast.Node) bool {
+			rng, ok := x.(*ast.RangeStmt)
+			if !ok {
+				return true
+			}
+			if !strings.HasSuffix(types.ExprString(rng.X), "mu.pointers") {
+				return true
+			}
+			writesOffset := false
+			ast.Inspect(rng.Body, func(y ast.Node) bool {
+				if as, ok := y.(*ast.AssignStmt); ok {
+					for _, l := range as.Lhs {
+						if sel, ok := ast.Unparen(l).(*ast.SelectorExpr); ok && sel.Sel.Name == "offset" {
+							writesOffset = true
+						}
+					}
+				}
+				return true
+			})
+			if !writesOffset {
+				return true
+			}
+			n++
+			early := ""
+			depth := 0
+			var walk func(y ast.Node) bool
+			walk = func(y ast.Node) bool {
+				switch v := y.(type) {
+				case *ast.FuncLit:
+					return false
+				case *ast.ForStmt, *ast.RangeStmt, *ast.SwitchStmt, *ast.SelectStmt, *ast.TypeSwitchStmt:
+					if y != ast.Node(rng) {
+						depth++
+						ast.Inspect(childBody(v), walk)
+						depth--
+						return false
+					}
+				case *ast.BranchStmt:
+					if (v.Tok == token.BREAK && (depth == 0 || v.Label != nil)) || v.Tok == token.GOTO {
+						early = "break at " + posOf(p, v)
+					}
+				case *ast.ReturnStmt:
+					early = "return at " + posOf(p, v)
+				}
+				return true
+			}
+			ast.Inspect(rng.Body, walk)
+			r.Ob("C04.R3.gc", "the offset rewrite loop of garbageCollectFile visits every pointer", p.Position(rng.Pos()), early == "", "early exit ("+early+"): pointers split by a concurrent Delete after the copy phase are not counted, later pointers keep offsets into the old file layout")
+			return true
+		})
+	}
+	visit(gcf)
+	if n == 0 {
+		r.Undecide("C04.R3: the offset rewrite loop over idx.mu.pointers was not found in garbageCollectFile")
+	}
+}
+
+func childBody(n ast.Node) ast.Node {
+	switch v := n.(type) {
+	case *ast.ForStmt:
+		return v.Body
+	case *ast.RangeStmt:
+		return v.Body
+	case *ast.SwitchStmt:
+		return v.Body
+	case *ast.SelectStmt:
+		return v.Body
+	case *ast.TypeSwitchStmt:
+		return v.Body
+	}
+	return n
+}
+
+// checkDeleteRoles decides C04.R5: validateDelete receives (startPosition, endPosition,
+// startOffset, endOffset) and derives one length from pointers[startPosition] and one from
+// pointers[endPosition]. An offset is a byte count inside *its own* domain: comparing the
+// start offset with the end domain's length (or vice versa) confuses two domains of
+// different sizes. Roles are resolved through parameter positions and definitions, not
+// names.
+func checkDeleteRoles(r *Run, p *Prog) {
+	fn := p.Func("cesium/internal/domain", "", "validateDelete")
+	if fn == nil {
+		r.Undecide("C04.R5: domain.validateDelete not found")
+		return
+	}
+	posRole := map[types.Object]int{}
+	offRole := map[types.Object]int{}
+	var ints, ptrs []types.Object
+	for i := 0; ; i++ {
+		po := paramObj(fn, i)
+		if po == nil {
+			break
+		}
+		switch t := po.Type().Underlying().(type) {
+		case *types.Basic:
+			if t.Info()&types.IsInteger != 0 {
+				ints = append(ints, po)
+			}
+		case *types.Pointer:
+			if b, ok := t.Elem().Underlying().(*types.Basic); ok && b.Info()&types.IsInteger != 0 {
+				ptrs = append(ptrs, po)
+			}
+		}
+	}
+	if len(ints) != 2 || len(ptrs) != 2 {
+		r.Undecide("C04.R5: validateDelete no longer takes two positions and two offset pointers (%d, %d)", len(ints), len(ptrs))
+		return
+	}
+	names := []string{"start", "end"}
+	for i := range ints {
+		posRole[ints[i]] = i
+		offRole[ptrs[i]] = i
+	}
+	// lengths: variables defined from <..>.pointers[<position>].size
+	lenRole := map[types.Object]int{}
+	roleOfLenExpr := func(e ast.Expr) (int, bool) {
+		found, role := false, 0
+		ast.Inspect(e, func(x ast.Node) bool {
+			sel, ok := x.(*ast.SelectorExpr)
+			if !ok || sel.Sel.Name != "size" {
+				return true
+			}
+			if ix, ok := ast.Unparen(sel.X).(*ast.IndexExpr); ok {
+				if ro, ok := posRole[objOf(fn, ix.Index)]; ok {
+					found, role = true, ro
+				}
+			}
+			return true
+		})
+		return role, found
+	}
+	inspectNoLit(fn.Body, func(x ast.Node) bool {
+		as, ok := x.(*ast.AssignStmt)
+		if !ok || len(as.Lhs) != len(as.Rhs) {
+			return true
+		}
+		for i, l := range as.Lhs {
+			if o := objOf(fn, l); o != nil {
+				if ro, ok := roleOfLenExpr(as.Rhs[i]); ok {
+					if _, isOff := offRole[o]; !isOff {
+						lenRole[o] = ro
+					}
+				}
+			}
+		}
+		return true
+	})
+	side := func(e ast.Expr) (kind string, role int, ok bool) {
+		e = ast.Unparen(e)
+		if st, isStar := e.(*ast.StarExpr); isStar {
+			if ro, ok := offRole[objOf(fn, st.X)]; ok {
+				return "offset", ro, true
+			}
+		}
+		if o := objOf(fn, e); o != nil {
+			if ro, ok := lenRole[o]; ok {
+				return "length", ro, true
+			}
+		}
+		if ro, ok := roleOfLenExpr(e); ok {
+			if _, isCall := e.(*ast.CallExpr); isCall || true {
+				return "length", ro, true
+			}
+		}
+		return "", 0, false
+	}
+	n := 0
+	seen := map[string]int{}
+	inspectNoLit(fn.Body, func(x ast.Node) bool {
+		be, ok := x.(*ast.BinaryExpr)
+		if !ok {
+			return true
+		}
+		switch be.Op {
+		case token.EQL, token.NEQ, token.LSS, token.GTR, token.LEQ, token.GEQ:
+		default:
+			return true
+		}
+		lk, lr, lok := side(be.X)
+		rk, rr, rok := side(be.Y)
+		if !lok || !rok || lk == rk {
+			return true
+		}
+		n++
+		key := fmt.Sprintf("validateDelete compares the %s offset with the %s domain's length (%s)", names[map[bool]int{true: lr, false: rr}[lk == "offset"]], names[map[bool]int{true: rr, false: lr}[lk == "offset"]], be.Op)
+		seen[key]++
+		if seen[key] > 1 {
+			key = fmt.Sprintf("%s #%d", key, seen[key])
+		}
+		r.Ob("C04.R5.roles", key, posOf(p, be), lr == rr, "an offset is a byte count inside its own domain; "+types.ExprString(be)+" relates it to the other domain's length, which differs whenever the two domains have different sizes")
+		return true
+	})
+	// the same discipline for assignments *off = len (clamps)
+	inspectNoLit(fn.Body, func(x ast.Node) bool {
+		as, ok := x.(*ast.AssignStmt)
+		if !ok || len(as.Lhs) != 1 || len(as.Rhs) != 1 {
+			return true
+		}
+		lk, lr, lok := side(as.Lhs[0])
+		rk, rr, rok := side(as.Rhs[0])
+		if lok && rok && lk == "offset" && rk == "length" {
+			n++
+			r.Ob("C04.R5.roles", fmt.Sprintf("validateDelete clamps the %s offset to the %s domain's length", names[lr], names[rr]), posOf(p, as), lr == rr, "clamped to the other domain's length")
+		}
+		return true
+	})
+	if n < 4 {
+		r.Undecide("C04.R5: only %d offset/length relations found in validateDelete (expected at least 4)", n)
+	}
 }
 
 func checkDeleteTimeRange(r *Run, p *Prog, la *LockAnalysis) {
